@@ -39,6 +39,13 @@ MUTS = [
  ("optional kind check dropped", F, "                if value is not None and not isinstance(value, Var):", "                if False:"),
  ("empty result types not dropped (Type._from_onnx on every output)", S, "            if info.type != onnx.TypeProto()\n", ""),
  ("existing output types overwritten only when inference gives one (types filled also when already set) - inverted guard", N, "            if var.type is None:  # If no existing type from init_output_vars", "            if var.type is not None:  # If no existing type from init_output_vars"),
+ ("constructor: reduce_sum default keepdims 1 -> 0 (Python default differs from the schema default)", V17,
+  "    keepdims: int = 1,\n    noop_with_empty_axes: int = 0,\n) -> Var:\n    r\"\"\"\n    Computes the sum of the input tensor's elements along the provided axes.",
+  "    keepdims: int = 0,\n    noop_with_empty_axes: int = 0,\n) -> Var:\n    r\"\"\"\n    Computes the sum of the input tensor's elements along the provided axes."),
+ ("Var types: symbolic dims dropped from value infos (Tensor._to_onnx)", "src/spox/_type_system.py",
+  "            dtype_to_tensor_type(self._elem_type), self.shape\n",
+  "            dtype_to_tensor_type(self._elem_type), None if self.shape is None else [d if isinstance(d, int) else None for d in self.shape]\n"),
+ ("constructor: concat ignores its axis argument", V17, '            axis=AttrInt64(axis, name="axis"),\n        ),\n        _Concat.Inputs(', '            axis=AttrInt64(0, name="axis"),\n        ),\n        _Concat.Inputs('),
  ("Compress fix reverted", V17, "        if self.inputs.input.type is None or self.inputs.condition.type is None:\n            return {}\n", ""),
  ("Compress no longer asks ONNX", V17, "        self.infer_output_types_onnx()\n        if self.inputs.input.type is None", "        if self.inputs.input.type is None"),
 ]
